@@ -162,6 +162,27 @@ EXTRA8 = {
 }
 for _k, _v in EXTRA8.items():
     CLAIMS[_k] = (CLAIMS[_k][0], CLAIMS[_k][1] + _v, CLAIMS[_k][2])
+# rules re-founded on abstract runs after the fourth refactoring round (text additions; the technique fields are patched below)
+EXTRA9 = {
+ "C03": " The stack scan of both builders is decided by abstract runs on every well-nested endpoint sequence of up to 4 events.",
+ "C08": " _validate_graph is decided by abstract runs on one-edge graphs (negative weight, same-stream sync edge, cycle, sound edge).",
+ "C09": " The validation clause is the one decided for C08 by abstract runs of _validate_graph.",
+ "C10": " The class of a span edge does not depend on name classifiers other than the communication test.",
+ "C13": " The re-parenting move, the stack linking and the kernel links are decided on the evaluated final state (small concrete node maps / symbolic frames).",
+ "C14": " The +bandwidth step sits at the copy's start and the -bandwidth step at its end (pairs, also for the melted form).",
+ "C18": " The decoded-column choice is decided by abstract runs on frames with known columns.",
+}
+for _k, _v in EXTRA9.items():
+    CLAIMS[_k] = (CLAIMS[_k][0], CLAIMS[_k][1] + _v, CLAIMS[_k][2])
+TECH9 = {
+ "C03": ("AST discipline rules for both builders", "abstract runs of the stack scan of both builders on all well-nested endpoint sequences of up to 4 events (AST discipline rules as diagnostics)"),
+ "C08": ("dominance rule for validation", "dominance rule for validation plus abstract runs of _validate_graph on one-edge graphs"),
+ "C13": ("AST rule for the link direction", "evaluated rules for the link direction, the re-parenting move (abstract runs on concrete node maps) and the stack linking"),
+ "C18": ("AST rule for the dtype idiom", "abstract runs of the decoded-column choice, AST rule for the dtype idiom"),
+}
+for _k, (_a, _b) in TECH9.items():
+    assert _a in CLAIMS[_k][0], (_k, _a)
+    CLAIMS[_k] = (CLAIMS[_k][0].replace(_a, _b), CLAIMS[_k][1], CLAIMS[_k][2])
 for _k, _v in EXTRA7.items():
     CLAIMS[_k] = (CLAIMS[_k][0], CLAIMS[_k][1] + _v, CLAIMS[_k][2])
 
